@@ -12,6 +12,9 @@ CHECKS = {
             "All well-nested chains of the 9 context kinds up to the depth bound are executed in three entry styles with an exception raised at every level and handled at every outer level; after each step the active interpretation and the class of fresh probe terms must match the model. Fault enumeration over the stated bounded space.",
             "trusted: the probe-class table per interpretation; exhaustive to depth 3 (quick) / 4 (thorough), sampled one level deeper", "DESIGN.md §6 C17"),
     # id: (technique, level text, level note, design ref)
+    "C19": ("round-trip and pointwise oracle on arange-filled arrays over enumerated shapes/namings; value-at-every-point oracle for align/materialize",
+            "Every array shape within the bound, event rank, naming of batch dims and dtype is converted to a funsor and back and indexed at every named point; every permutation of inputs is aligned for tensors, lazy terms, contractions, Gaussians and Deltas. Exploration, exhaustive over the stated bounded space in the thorough tier.",
+            "trusted: numpy indexing; fv/refsem.py for lazy terms", "DESIGN.md §6 C19"),
     "C15": ("runtime oracle over op-table axioms on edge grids; scalar/0-d/array differential; NaN monitor on safe ops",
             "Every published table entry and every catalogue op is executed on an edge-value grid crossed with random values, shapes and operand orders; numpy/math/scipy arithmetic is the independent oracle. Exploration: held on the grid that was run, nothing beyond.",
             "trusted: numpy/scipy/math arithmetic; carriers as stated in the property (non-negative for max/min with mul, booleans for and/or)", "DESIGN.md §6 C15"),
